@@ -602,6 +602,15 @@ Theorem C07_poet_dp_optimal : forall pen cmp preceding wg total p,
 Proof. exact dp_optimal. Qed.
 Print Assumptions C07_poet_dp_optimal.
 
+Theorem C07_poet_tie_keeps_first : forall cmp best nl,
+  (best <> [] -> cmp best nl = false -> better cmp best nl = best) /\
+  (cmp best nl = true -> better cmp best nl = nl) /\
+  ((compare_weight best nl = false /\ compare_weight nl best = false) <-> l_weight best = l_weight nl).
+Proof.
+  intros. split; [apply better_keeps_first|]. split; [apply better_takes_strictly_better|apply compare_weight_tie].
+Qed.
+Print Assumptions C07_poet_tie_keeps_first.
+
 Theorem C07_poet_comparisons_ok : cmp_ok compare_weight /\ cmp_ok left_associate_compare.
 Proof. split; [exact compare_weight_ok|exact left_associate_compare_ok]. Qed.
 Print Assumptions C07_poet_comparisons_ok.
